@@ -218,14 +218,11 @@ def coq_term(c, io):
     return f"(mkCase {cstring(c['g'])} {cstring(c['url'])} {cstring(c['f'])} {cstring(a0)} " + " ".join(rs) + ")"
 
 
-KCLASS = {0: None, 1: "known_C34_K1_grayscale_hsl"}
-
-
 def judge(c, io, r):
-    corr, forms, k_forms, named, call, same, anyok = r
+    corr, forms, named, call, same, anyok = r
     return {
         "corr": None if corr == 2 else (corr == 1),
-        "clauses": [("global-vs-module", forms == 1, KCLASS[k_forms]), ("named-vs-positional", named == 1, None),
+        "clauses": [("global-vs-module", forms == 1, None), ("named-vs-positional", named == 1, None),
                     ("meta-call", call == 1, None)],
         "nontrivial": anyok == 1,
         "tags": [c["url"], "same-object" if same else "separate-definition"],
